@@ -5,6 +5,7 @@ import (
 	"encoding/binary"
 	"encoding/json"
 	"fmt"
+	"io"
 	"sync"
 	"time"
 
@@ -739,14 +740,14 @@ func (b *BaseStore) LoadFromSnapshot(ctx context.Context) error {
 	}
 
 	headerLengthRaw := make([]byte, 2)
-	if _, err := res.Read(headerLengthRaw); err != nil {
+	if _, err := io.ReadFull(res, headerLengthRaw); err != nil {
 		return fmt.Errorf("unable to read from stream: %w", err)
 	}
 
 	headerLength := binary.BigEndian.Uint16(headerLengthRaw)
 	header := &storeSnapshot{}
 	headerRaw := make([]byte, headerLength)
-	if _, err := res.Read(headerRaw); err != nil {
+	if _, err := io.ReadFull(res, headerRaw); err != nil {
 		return fmt.Errorf("unable to read from stream: %w", err)
 	}
 
@@ -759,7 +760,7 @@ func (b *BaseStore) LoadFromSnapshot(ctx context.Context) error {
 
 	for i := 0; i < header.Size; i++ {
 		entryLengthRaw := make([]byte, 2)
-		if _, err := res.Read(entryLengthRaw); err != nil {
+		if _, err := io.ReadFull(res, entryLengthRaw); err != nil {
 			return fmt.Errorf("unable to read from stream: %w", err)
 		}
 
@@ -767,7 +768,7 @@ func (b *BaseStore) LoadFromSnapshot(ctx context.Context) error {
 		e := &entry.Entry{}
 		entryRaw := make([]byte, entryLength)
 
-		if _, err := res.Read(entryRaw); err != nil {
+		if _, err := io.ReadFull(res, entryRaw); err != nil {
 			return fmt.Errorf("unable to read from stream: %w", err)
 		}
 
